@@ -2,7 +2,7 @@
 
 claim("C01",
       "Bounded symbolic model check of the real secs2 constructors, encoders and decoder against an independent E5 reference encoder: "
-      "for every element value (all bit patterns) of every leaf type x argument shape x 0..3 elements, list trees of depth <=2 (thorough: 9 leaf kinds; depth 3 with 2 kinds), "
+      "for every element value (all bit patterns) of every leaf type x argument shape x 0..3 elements, list trees of depth <=2 (thorough: 5 leaf kinds; depth 3 with 2 kinds), "
       "length boundaries 255/256/65535/65536 through the real item code, nesting 63/64/65, slab boundaries 2/6/22(/86) leaves, and the header function over ALL lengths and format codes, "
       "the encoded bytes equal the reference, EncodedLen matches, AppendTo preserves the prefix, encoding is deterministic and Decode returns an Equal item with the same values. "
       "This is the right level because the property is a forall over values whose interesting points (255/256, sign bits, NaN payloads) are rare; the solver decides each path for all values.",
